@@ -65,7 +65,7 @@ fn has_name_value_attr(input: &str) -> bool {
 
 pub fn run(res: &mut CheckResult, tier: Tier, seed: u64, known: &Known) {
     let n = match tier {
-        Tier::Quick => 8_000,
+        Tier::Quick => 24_000,
         Tier::Thorough => 240_000,
     };
     let rule = "Union of the valid-mode, fault-injected (2-4 documented misuses), wild-mode and token-soup L1 corpora and the instruction-selection lattice of C16, incl. attribute forms with all three delimiters, name = value, paths and empty #[o2o]; each input is expanded by `dump-syn1` (o2o-impl feature syn) and `dump-syn2` (feature syn2) in separate processes. Oracle: both accept with byte-identical token strings; or both reject — when both lead with the o2o root error the remaining diagnostics are compared as sets, otherwise (parser-library stage) only the verdict; mixed verdicts or a panic on one side only are violations; inputs the parser library itself rejects as a derive input are outside the property. Non-trivial = the input carries >= 2 attributes; distinct by input text.".to_string();
